@@ -7,7 +7,7 @@ RUN: harness/c06.cpp replays every history on ONE XalanTransformer and every dis
      functions) tuple on a newly constructed one (Fresh events).
 TV : Trace_C06.tla accepts an execution iff every event is a step of Transformer.tla (each Transform returns the
      oracle entry learned from the Fresh events: status, output bytes, error text; getLastError() emptiness)."""
-import bisect, json, os, random, subprocess, time
+import bisect, json, os, random, shutil, subprocess, time
 from concurrent.futures import ThreadPoolExecutor
 import vlib, tlaparse
 from vlib import ROOT
@@ -429,6 +429,13 @@ def run(res, tier, seed):
     events, crashes = run_harness(exe, wd, pool, cases, 6 if quick else 12, 600 if quick else 1500)
     for what, ex in crashes:
         res.violation(what, ex)
+    # one more execution: every distinct answer of a fresh transformer seen in this run; TLC rejects it if one tuple got two
+    distinct_fresh = {}
+    for ev in events:
+        if ev["e"] == "Fresh":
+            distinct_fresh.setdefault(vlib.canon_hash(ev), ev)
+    if distinct_fresh:
+        events += [{"e": "Reset", "case": 0, "what": "all distinct Fresh events of the run"}] + [distinct_fresh[k] for k in sorted(distinct_fresh)]
     vlib.log("c06: RUN %.1fs (%d events)" % (time.time() - t0, len(events))); t0 = time.time()
     # ---- TV
     known = {k["key"]: k for k in vlib.known_findings(PROP)}
@@ -460,6 +467,8 @@ def run(res, tier, seed):
         "the role of each pool document (which outcome class it produces) is checked against the status of every Fresh event",
         "process-global state shared by all transformers (function tables, ICU) is outside the comparison: a leak there affects the fresh transformer alike",
         "histories that set a parameter through the XObjectPtr/double overload after an expression string (known finding paramExprShadowsValue) are generated separately and end at the first deviating Transform"]
+    if not os.environ.get("VERIF_KEEP"):
+        shutil.rmtree(wd, ignore_errors=True)
 
 
 def replay(path):
@@ -478,4 +487,5 @@ def replay(path):
     rejects, _ = vlib.tlc_validate_sharded(TRACE, ev, shards=1, tag="c06replay") if ev else ([], None)
     for r in rejects:
         print("REJECTED line %d: %s\n   %s" % (r["line"], r["msg"], json.dumps(ev[r["line"]])[:600]))
+    shutil.rmtree(wd, ignore_errors=True)
     return 1 if rejects or crashes else 0
